@@ -212,3 +212,14 @@ Definition commands_of (f : file) : list cmd := map f_cmd (filter f_is_command f
 (* every command of the project with what is generated for it, files in the given (sorted) order *)
 Definition generate_project (cf : cfg) (m : mode) (p : project) : list (cmd * outcome gen) :=
   flat_map (fun f => map (fun c => (c, generate_in cf m f c)) (commands_of f)) p.
+
+(* ---- histories of runs into one output directory (bin run_generate / build generate_bindings with
+        GenerationCache): a run either regenerates from the current sources and settings or, when the cache
+        it finds was saved for inputs that hash like the current ones and the files are present, leaves the
+        files alone. At HEAD every regenerating run (forced or not) saves the cache of what it wrote, so the
+        files found by a skipping run are those of a run with the same inputs: after every run the bindings
+        are those of the current state. (That equal hashes mean equal key-relevant inputs is C08's subject;
+        here the history is tied to the code by the run-histories stream.) *)
+Record run_step := { r_cfg : cfg; r_mode : mode; r_project : project; r_force : bool }.
+Definition after_run (s : run_step) : list (cmd * outcome gen) := generate_project (r_cfg s) (r_mode s) (r_project s).
+Definition run_history (h : list run_step) : list (list (cmd * outcome gen)) := map after_run h.
